@@ -81,9 +81,18 @@ class CfgScenario(explore.Scenario):
         w.objs.update(w.nodes)
         return w
 
-    def edge(self, w, i):
-        s, t, l = self.universe[i]
-        return w.g.Edge(w.nodes[s], w.nodes[t], self.labels(w.g)[l])
+    def edge(self, w, i, fresh=False):
+        """the world's canonical Edge object for universe entry i (the same
+        object every time), or a fresh equal one"""
+        cache = w.__dict__.setdefault("edge_objs", {})
+        key = (i, id(w.nodes[self.universe[i][0]]), id(w.nodes[self.universe[i][1]]))
+        if fresh or key not in cache:
+            s, t, l = self.universe[i]
+            e = w.g.Edge(w.nodes[s], w.nodes[t], self.labels(w.g)[l])
+            if fresh:
+                return e
+            cache[key] = e
+        return cache[key]
 
     def index_of(self, w, e):
         lab = self.labels(w.g)
@@ -104,7 +113,7 @@ class CfgScenario(explore.Scenario):
         n = len(self.universe)
         out = []
         for i in range(n):
-            for m in ("add", "discard", "remove"):
+            for m in ("add", "discard", "remove", "discard_eq", "contains"):
                 out.append([m, i])
             out.append(["update", [i, i]])
         out.append(["pop"])
@@ -129,8 +138,10 @@ class CfgScenario(explore.Scenario):
         new = set(M)
         if kind == "add":
             new.add(op[1])
-        elif kind == "discard":
+        elif kind in ("discard", "discard_eq"):
             new.discard(op[1])
+        elif kind == "contains":
+            want_ret = "bool:%s" % (op[1] in M)
         elif kind == "remove":
             if op[1] not in M:
                 want_exc = "KeyError"
@@ -163,6 +174,10 @@ class CfgScenario(explore.Scenario):
         try:
             if kind in ("add", "discard", "remove"):
                 res = getattr(cfg, kind)(self.edge(w, op[1]))
+            elif kind == "discard_eq":
+                res = cfg.discard(self.edge(w, op[1], fresh=True))
+            elif kind == "contains":
+                res = self.edge(w, op[1]) in cfg
             elif kind == "pop":
                 res = cfg.pop()
             elif kind == "clear":
@@ -191,6 +206,9 @@ class CfgScenario(explore.Scenario):
         if exc is None:
             if want_ret == "none" and res is not None:
                 v.append(("C11/return:%s" % kind, repr(res)))
+            elif want_ret.startswith("bool:"):
+                if str(res) != want_ret[5:]:
+                    v.append(("C11/membership-op", "%s -> %r" % (op, res)))
             elif want_ret == "self" and res is not cfg:
                 v.append(("C11/return-not-self:%s" % kind, repr(type(res))))
             elif want_ret == "member":
